@@ -329,40 +329,15 @@ def building_blocks_rule(ctx, run):
 
 
 def module_forward_rule(ctx, run):
-    """R5m: the forward of every module class the library offers as (part of) a hedging model - every class of pfhedge.nn.modules that defines
-    or inherits a pfhedge-level forward, MultiLayerPerceptron and Naked included - passes gradients from its input to its output: no
-    graph-breaking construct on the slice (a forward that is absent, i.e. torch's own Sequential.forward, is trusted)."""
-    prog, interp = ctx.prog, ctx.interp
-    MODS = "pfhedge.nn.modules."
-    skip = ("pfhedge.nn.modules.loss.", "pfhedge.nn.modules.hedger.")
-    classes = sorted(q for q, ci in prog.classes.items() if q.startswith(MODS) and not q.startswith(skip) and not q.rsplit(".", 1)[-1].startswith("_"))
-    inp = W.tensor("input")
+    """R5m: the forward of every module class the library offers as (part of) a hedging model - every class of pfhedge.nn.modules with a
+    pfhedge-level forward of one tensor, MultiLayerPerceptron and Naked included (purity.builtin_model_runs) - passes gradients from its input
+    to its output: no graph-breaking construct on the slice and no fixed no-grad region (a forward that is absent, i.e. torch's own
+    Sequential.forward, is trusted)."""
+    from ..purity import builtin_model_runs
+    prog = ctx.prog
     n = 0
-    for q in classes:
-        fwd = prog.lookup_method(q, "forward")
-        if fwd is None or not fwd.qualname.startswith("pfhedge."):
-            continue
-        short = q.rsplit(".", 1)[-1]
-        # a generic instance: attributes are materialised on demand, sub-modules are opaque callables
-        o = Obj(q, short.lower(), {})
-        if "bs." in q:
-            o.attrs.update(call=True, strike=W.fl("strike"), derivative=None)
-        if short == "WhalleyWilmott":
-            d_ = Obj("pfhedge.instruments.derivative.european.EuropeanOption", "deriv", {"strike": W.fl("K"), "call": True})
-            d_.attrs["underlier"] = Obj(W.PRIMARY, "ul", {"cost": W.fl("cost")})
-            o.attrs.update(a=W.fl("a"), derivative=d_, bs=Sym("ww.bs", ("callable",)))
-        if short == "Naked":
-            o.attrs.update(out_features=1)
-        nparams = len(fwd.node.args.args) - 1
-        if nparams != 1:
-            continue  # Clamp-like modules with several tensor arguments are covered through their functionals (R5)
-        interp.shapes["input"] = (W.integer("N"), W.integer("T"), 4)
-        try:
-            res = [r for r in interp.explore(fwd, [inp], {}, self_obj=o, max_paths=60) if not r["raises"]]
-        except Unsupported:
-            res = None
-        finally:
-            interp.shapes.pop("input", None)
+    for short, fwd, inp, allres in builtin_model_runs(ctx):
+        res = [r for r in (allres or []) if not r["raises"]]
         if not res:
             run.notes.append(f"C14.R5m: {short}.forward not interpreted on a generic instance")
             continue
@@ -391,6 +366,8 @@ def module_forward_rule(ctx, run):
             run.fail(Finding("C14.R5m", fwd.qualname, f"{short}: " + "; ".join(problems)[:260], "a hedger built on this module does not receive the gradient through its (recurrent) input",
                              file=str(prog.modules[fwd.module].path), line=fwd.node.lineno))
     run.require("C14.R5m", 5)
+    if n < 5:
+        raise AnalysisError(f"only {n} built-in model forwards could be interpreted")
 
 
 _check_before_r5m = check
